@@ -1,5 +1,4 @@
 import Mq.Render
-import Proofs.Tie.WellFormed
 /-!
 # C17 — WellFormed decides exactly the documented rules and String agrees with it
 -/
@@ -103,13 +102,5 @@ theorem C17_string_subscribe (s : Subscribe) :
 /-- non-vacuity, both sides of the alias rule: empty topic with an alias is well formed; without, not -/
 example : ({ topicAlias := 5 } : Publish).wellFormed = none ∧ ({} : Publish).wellFormed = some ("topic name", "empty") := by
   decide
-
-/-- **the `WellFormed` these theorems are about is the one in /repo's source**: the three methods,
-translated condition by condition on every run, are the model's -/
-theorem C17_wellFormed_from_source :
-    (∀ p, Gen.Publish.wellFormed p = p.wellFormed) ∧ (∀ p, Gen.Subscribe.wellFormed p = p.wellFormed)
-    ∧ (∀ f, Gen.TopicFilter.wellFormed f = f.wellFormed) ∧ Gen.untranslatedWellFormed = [] :=
-  ⟨Tie.WellFormed.publish_wellFormed, Tie.WellFormed.subscribe_wellFormed, Tie.WellFormed.topicFilter_wellFormed,
-   Tie.WellFormed.complete⟩
 
 end Mq
